@@ -1,7 +1,9 @@
 """C13 — replaced content: sizing rules, painted rectangle, embedded once."""
-from extract import replaced_consts
+from extract import raster_embed_graph, replaced_consts
+from harness import c13_branches
 from harness import c13_docs
 from harness import c13_embed
+from harness import c13_svg
 from harness import c13_exec
 from harness import c13_oracle
 from harness import c13_real as real
@@ -11,8 +13,8 @@ from vlib.framework import PropCheck
 
 class C13(PropCheck):
     id = 'C13'
-    extractors = (replaced_consts.generate,)
-    modules = ('WpModel.Props.C13', 'WpModel.Witness.C13')
+    extractors = (replaced_consts.generate, raster_embed_graph.generate)
+    modules = ('WpModel.Props.C13', 'WpModel.Props.C13b', 'WpModel.Witness.C13')
     trusted_base = (
         'modelled, not verified: layout/replaced.py (all functions), min_max.py decorators, block_level_width, '
         'layout_background_layer / draw_background_image arithmetic, Stream.add_image/add_group/add_pattern naming, '
@@ -31,7 +33,18 @@ class C13(PropCheck):
     def correspondence(self, run):
         docs.quiet()
         rng = run.rng
-        sec = run.section(
+
+        def section(name, rule):
+            """A section whose cases are also tagged with the model branch they exercise (`br:…`)."""
+            sec = run.section(name, rule)
+            original = sec.add
+
+            def add(line, out, meta=None, nontrivial=True, tags=()):
+                original(line, out, meta=meta, nontrivial=nontrivial,
+                         tags=list(tags) + c13_branches.branches(line, out))
+            sec.add = add
+            return sec
+        sec = section(
             'object-size', 'SVGImage.get_intrinsic_size on generated <svg> roots; default_image_sizing / contain / cover on Fractions, intrinsic (w,h,ratio) each '
             'possibly None, plus an adversarial stream; non-trivial = a specified size is auto/None resp. a ratio exists')
         for k in range(run.n(1500, 30000)):
@@ -42,16 +55,16 @@ class C13(PropCheck):
             line, out, meta, nontrivial, tags = case(rng, adversarial=(k % 5 == 0))
             sec.add(line, out, meta=meta, nontrivial=nontrivial, tags=tags)
 
-        sec = run.section(
+        sec = section(
             'replacedbox-layout', 'replacedbox_layout on a real InlineReplacedBox with every object-fit, random '
             'object-position (px/%/right/bottom); non-trivial = object-fit other than fill')
         for k in range(run.n(4000, 80000)):
             line, out, meta, nontrivial, tags = real.case_replacedbox_layout(rng, adversarial=(k % 5 == 0))
             sec.add(line, out, meta=meta, nontrivial=nontrivial, tags=tags)
 
-        sec = run.section(
+        sec = section(
             'used-size', 'block_level_width, replaced_box_width/height (with and without min/max), '
-            'min_max_auto_replaced, inline_replaced_box_width_height, inline_replaced_box_layout, absolute_replaced (sizing), '
+            'min_max_auto_replaced, inline_replaced_box_width_height, inline_replaced_box_layout, absolute_replaced (sizing), preferred.replaced_min/max_content_width, '
             'block_replaced_width, block_replaced_box_layout on real ReplacedBoxes; non-trivial = an auto size '
             'or a min/max function')
         for k in range(run.n(12000, 240000)):
@@ -60,8 +73,11 @@ class C13(PropCheck):
         for k in range(run.n(1000, 20000)):
             line, out, meta, nontrivial, tags = real.case_absolute_replaced(rng, adversarial=(k % 4 == 0))
             sec.add(line, out, meta=meta, nontrivial=nontrivial, tags=tags)
+        for k in range(run.n(2000, 40000)):
+            line, out, meta, nontrivial, tags = real.case_pref_width(rng, adversarial=(k % 4 == 0))
+            sec.add(line, out, meta=meta, nontrivial=nontrivial, tags=tags)
 
-        sec = run.section(
+        sec = section(
             'background-layer', 'layout_box_backgrounds -> layout_background_layer on a real BlockBox / PageBox '
             'with 1-3 stub-image layers (size cover/contain/explicit/auto, four repeats incl. round, origin, clip, '
             'position, fixed), draw_background_image on a real Stream (clip + group translate or tiling pattern '
@@ -73,7 +89,7 @@ class C13(PropCheck):
             line, out, meta, nontrivial, tags = real.case_table_background(rng, adversarial=(k % 5 == 0))
             sec.add(line, out, meta=meta, nontrivial=nontrivial, tags=tags)
 
-        sec = run.section(
+        sec = section(
             'image-dedupe', 'random draw programs (images, nested groups, patterns) executed on real Streams '
             'sharing one Resources / images registry over 1-3 pages, then the real _use_references on a real '
             'pydyf.PDF: objects appended (image / mask / group / pattern / resources, with interpolate and '
@@ -82,7 +98,7 @@ class C13(PropCheck):
             line, out, meta, nontrivial, tags = real.case_dedupe(rng, adversarial=(k % 4 == 0))
             sec.add(line, out, meta=meta, nontrivial=nontrivial, tags=tags)
 
-        sec = run.section(
+        sec = section(
             'image-draw', 'RasterImage.draw of real Pillow-made RasterImages on a real Stream (dpi option, ctm, '
             'image-rendering) and draw_replacedbox of a real InlineReplacedBox: the registered name / '
             'interpolate / dpi ratio and the `cm` operators before `Do`; non-trivial = something is drawn resp. '
@@ -92,7 +108,19 @@ class C13(PropCheck):
             line, out, meta, nontrivial, tags = case(rng, adversarial=(k % 5 == 0))
             sec.add(line, out, meta=meta, nontrivial=nontrivial, tags=tags)
 
-        sec = run.section(
+        sec = section(
+            'svg-viewport', 'the real svg.utils.preserve_ratio on real SVG trees (root / nested <svg>, <marker>, explicit '
+            'viewBox as <image> passes it; all preserveAspectRatio values incl. malformed ones; malformed viewBox), the '
+            'two cm operators of the real SVG.draw on a real Stream, and svg.images.image with a stub referenced image '
+            '(clip box, drawn size, fitting cm); non-trivial = a viewBox is in effect')
+        for k in range(run.n(1200, 24000)):
+            adversarial = k % 3 == 0
+            cases = [c13_svg.case_preserve_ratio(rng, adversarial), c13_svg.case_svg_draw(rng, adversarial)]
+            cases += c13_svg.case_svg_image(rng, adversarial)
+            for line, out, meta, nontrivial, tags in cases:
+                sec.add(line, out, meta=meta, nontrivial=nontrivial, tags=tags)
+
+        sec = section(
             'raster-embed', 'tiny Pillow-made images of every mode (1, L, LA, P, PA, RGB, RGBA, CMYK, I, I;16, F) x '
             'file format (PNG, GIF, JPEG, TIFF, WEBP, BMP) x transparency info x optimize_images / jpeg_quality x '
             'image-orientation, loaded by the real get_image_from_uri and embedded by the real '
@@ -102,8 +130,12 @@ class C13(PropCheck):
         for k in range(run.n(2500, 40000)):
             line, out, meta, nontrivial, tags = c13_embed.case_embed(rng)
             sec.add(line, out, meta=meta, nontrivial=nontrivial, tags=tags)
+        for k in range(run.n(600, 6000)):
+            for case in (c13_embed.case_orientation, c13_embed.case_orientation_angle):
+                line, out, meta, nontrivial, tags = case(rng)
+                sec.add(line, out, meta=meta, nontrivial=nontrivial, tags=tags)
 
-        sec = run.section(
+        sec = section(
             'documents', 'generated documents: 1-4 <img>/<object>/<embed> (inline or block, ltr/rtl) showing '
             'Pillow-made PNGs with width/height/min/max in {auto,px,%}, every object-fit, object-position, '
             'image-resolution, image-rendering, and 0-2 boxes with a background image (size/position/repeat/'
@@ -114,6 +146,12 @@ class C13(PropCheck):
         for k in range(run.n(350, 7000)):
             for line, out, meta, nontrivial, tags in c13_docs.case_document(rng):
                 sec.add(line, out, meta=meta, nontrivial=nontrivial, tags=tags)
+
+        import collections
+        total = collections.Counter()
+        for sec in run.sections:
+            total.update(sec.tags)
+        run.extra['model_branches'] = c13_branches.report(total)
 
     def judge(self, d):
         """The clause itself, stated on the implementation's output (harness/c13_oracle.py)."""
@@ -142,11 +180,14 @@ class C13(PropCheck):
                     return found
         cases = (real.case_default_sizing, real.case_constraint, real.case_replacedbox_layout,
                  real.case_used_size, real.case_absolute_replaced, real.case_dedupe, real.case_raster_draw,
-                 real.case_draw_replacedbox, real.case_svg_intrinsic, c13_embed.case_embed)
+                 real.case_draw_replacedbox, real.case_svg_intrinsic, c13_embed.case_embed, real.case_pref_width,
+                 c13_embed.case_orientation, c13_embed.case_orientation_angle)
         for k in range(run.n(4000, 40000)):
             adversarial = k % 5 == 0
             batch = [case(rng, adversarial)[:3] for case in cases]
             batch += [c[:3] for c in real.case_backgrounds(rng, adversarial)]
+            batch += [c13_svg.case_preserve_ratio(rng, adversarial)[:3], c13_svg.case_svg_draw(rng, adversarial)[:3]]
+            batch += [c[:3] for c in c13_svg.case_svg_image(rng, adversarial)]
             for line, out, meta in batch:
                 run.search_stats['evaluations'] += 1
                 what = c13_oracle.judge(line, out)
@@ -164,6 +205,9 @@ class C13(PropCheck):
         docs.quiet()
         return {'abs-replaced-ratio-only-width': c13_docs.finding_abs_replaced_ratio_only,
                 'grey16-embedded-as-rgb8': c13_embed.finding_grey16,
+                'image-orientation-rotates-ccw': c13_embed.finding_orientation_ccw,
+                'background-no-repeat-axis-wraps': c13_docs.finding_no_repeat_axis_wraps,
+                'svg-preserveaspectratio-inherited': c13_svg.finding_par_inherited,
                 'unwritable-mode-crash': c13_embed.finding_unwritable_mode}
 
     def replay(self, data):
@@ -174,6 +218,12 @@ class C13(PropCheck):
         meta = inp.get('meta') if isinstance(inp.get('meta'), dict) else {}
         if 'doc' in meta:
             return c13_docs.judge_document(c13_docs.revive(meta['doc']))
+        if str(meta.get('fn', '')).startswith(('preserve_ratio', 'SVG.draw', 'svg.images.image')):
+            for line, out in c13_svg.replay(meta):
+                what = c13_oracle.judge(line, out)
+                if what:
+                    return what
+            return None
         if meta.get('fn') == 'RasterImage':
             return c13_oracle.judge(*c13_embed.replay_embed(meta))
         if 'line' in inp:
@@ -189,26 +239,31 @@ PROP = C13()
 MANIFEST = {
     'design_ref': 'DESIGN.md §4 C13',
     'technique': 'Lean 4 theorems over hand-written executable models of layout/replaced.py (every function), the '
-                 'min_max.py decorators, block_level_width, layout_background_layer / draw_background_image arithmetic, '
-                 'Stream.add_image + _use_references and RasterImage.draw / draw_replacedbox; literals regenerated from '
-                 'the source each run (Gen/ReplacedConsts); exact rational correspondence with the real functions '
-                 '(mock boxes, real Stream / pydyf.PDF) and with rendered documents (box sizes, cm…Do, pattern '
-                 'dictionaries, image XObjects of the uncompressed PDF)',
+                 'min_max.py decorators, block_level_width, preferred.py replaced min/max-content widths, '
+                 'layout_background_layer / draw_background_image arithmetic, Stream.add_image + _use_references, '
+                 'RasterImage.__init__ / get_x_object decisions, RasterImage.draw / draw_replacedbox, '
+                 'rotate_pillow_image / computed image-orientation, SVGImage.get_intrinsic_size, svg preserve_ratio / '
+                 '<image> box; literals regenerated from the source (Gen/ReplacedConsts) and the whole-domain graph of '
+                 'the embedding decisions regenerated by calling the real RasterImage (Gen/RasterEmbedGraph, proved '
+                 'equal to the model); exact rational correspondence with the real functions (mock boxes, real Stream '
+                 '/ pydyf.PDF / Pillow images / SVG trees) and with rendered documents (box sizes, cm…Do, pattern '
+                 'dictionaries, image XObjects of the uncompressed PDF); model-branch histogram in the evidence',
     'text': 'Proved for all inputs of the model: the CSS 2.1 10.3.2/10.6.2 table (intrinsic size / image-resolution, '
-            'ratio kept when one dimension is auto, 300x150), clamping of specified sizes to [min, max], the 10.4 '
-            'min/max table (result within bounds, ratio kept when one constraint is violated, total, case list '
-            'generated from the source), contain/cover/default sizing, the object-fit rectangle and object-position '
-            '(inside the content box for fill/contain/scale-down), background layers (round repeat = integer tile '
-            'count >= 1 exactly filling the area, nearest to area/tile; position/size otherwise), one image XObject '
-            'per distinct (image.id, interpolate) for any nesting of groups/patterns/pages with every reference '
-            'pointing to it, and the cm matrices of draw_replacedbox mapping the unit square onto the object-fit '
-            'rectangle. Sampled only: everything about pixels.',
-    'note': 'Trusted: Lean kernel, the AST translator of py/extract/replaced_consts.py, the mock-object harness and '
-            'harness.exactq.Q (float literals taken at the exact value of the double). Out of scope and not '
-            'modelled: pixel-level losslessness (Pillow / zlib re-encoding, alpha split, EXIF orientation), SVG '
-            'rendering and viewBox mapping, RasterImage ratio = inf. Document level uses dyadic lengths and '
-            'power-of-two image sides; non-dyadic float results are compared after snapping (counted under '
-            'doc:float-rounding) and never feed a discrete decision. Known finding: abs-replaced-ratio-only-width '
-            '(point 3 of 10.3.2 uses cb_x for absolutely positioned boxes; used_size_ratio_only_partial). '
-            'background-round-zero-size is repaired (background_round at full strength, background_round_total).',
+            'ratio kept when one dimension is auto, 300x150), clamping to [min, max], the 10.4 min/max table, '
+            'contain/cover/default sizing, the object-fit rectangle and object-position, background layers (round = '
+            'integer tile count filling the area; space; contain/cover; single image), one image XObject per distinct '
+            '(image.id, interpolate) for any nesting with every reference pointing to it and the maximum dpi ratio, '
+            'the cm matrices of draw_replacedbox, SMask <=> alpha / transparency for every Pillow mode (also on the '
+            'regenerated whole-domain table), pass-through of JPEG / PNG bytes without lossy option, the SVG '
+            'viewBox -> viewport mapping for every preserveAspectRatio (none / meet / slice x 9 alignments), '
+            'image-orientation (size swap, half turns = css-images-3), intrinsic min <= max contribution. '
+            'Decoded pixels are compared with Pillow on tiny images of every mode (correspondence, not proof).',
+    'note': 'Trusted: Lean kernel, the AST translator of py/extract/replaced_consts.py, the graph translator '
+            'py/extract/raster_embed_graph.py, the mock-object harnesses and harness.exactq.Q (float literals taken at '
+            'the exact value of the double), Pillow as the reference decoder. Not modelled: JPEG pixel values under '
+            'lossy options, the dpi thumbnail path, SVG painting below the root transform, gradients, EXIF-driven '
+            'from-image orientation, RasterImage ratio = inf. Document level uses dyadic lengths and power-of-two '
+            'image sides. Known findings (partial theorems + witnesses): abs-replaced-ratio-only-width, '
+            'grey16-embedded-as-rgb8, unwritable-mode-crash, background-no-repeat-axis-wraps, '
+            'svg-preserveaspectratio-inherited, image-orientation-rotates-ccw.',
 }
